@@ -90,7 +90,7 @@ PROPERTIES["C06"] = {
     "manifest": {
         "engine": "mirsym",
         "technique": "symbolic execution of the engine's MIR (z3) over a fully symbolic peer byte stream; oracle on the tokens reaching the mechanism",
-        "text": "For a PLAIN-configured listener and EVERY peer byte stream within the bound (all greetings: any revision, mechanism field, as-server byte, padding; any following frames), the engine reaches HandshakeComplete / Data / DeliverMessage only if a HELLO carrying exactly the configured username and password was processed. All paths are enumerated; each verdict is a z3 query.",
+        "text": "For a PLAIN-configured listener and EVERY peer byte stream within the bound (all greetings: any revision, mechanism field, as-server byte, padding; any following frames), the engine leaves the Security phase (Ready, Data, HandshakeComplete or DeliverMessage) only if a HELLO carrying exactly the configured username and password was processed, and the listener never emits a HELLO of its own (its credentials never travel to the peer). All paths are enumerated; each verdict is a z3 query.",
         "design_ref": "DESIGN.md §5 C06",
         "note": "Bounded by the stream length (84/92 bytes, one read; cut independence is C04) and credential length. For CURVE / NOISE_XX only the gate they share with PLAIN is decided (no NULL / PLAIN / unknown-mechanism / ZMTP-2.0 peer gets past the greeting of a socket whose mechanism is neither NULL nor PLAIN); their own handshakes (cryptography) and the PLAIN connector role are outside. Model library and MIR semantics are trusted; counterexamples are replayed natively.",
     },
@@ -124,7 +124,7 @@ PROPERTIES["C07"] = {
     "manifest": {
         "engine": "mirsym+kani",
         "technique": "symbolic execution of the engine's MIR (z3), one step from every protocol phase on arbitrary bytes; Kani/CBMC for the frame decoders over the full 64-bit length range",
-        "text": "Panic freedom and size bounds: from each phase (Greeting, Ready, Data with 0..255 pending MORE frames, v2 and v3) one on_network_bytes call with arbitrary bytes never panics, every fatal error closes the engine, Closed is absorbing; MAXMSGSIZE accepts exactly-limit and refuses limit+1 for every limit (engine level: limit >= 28; parser level via Kani: every i64) and refuses before buffering the body.",
+        "text": "Panic freedom and size bounds: from each phase (Greeting, Ready, Data with 0..255 pending MORE frames, v2 and v3) one on_network_bytes call with arbitrary bytes never panics, every fatal error closes the engine, Closed is absorbing; MAXMSGSIZE accepts exactly-limit and refuses limit+1 for every limit (engine level: limit >= 28, in the ZMTP/3 and ZMTP/2.0 Data phases; an over-limit announcement is also refused before READY and before the PLAIN HELLO/WELCOME; parser level via Kani: every i64) and refuses before buffering the body.",
         "design_ref": "DESIGN.md §5 C07",
         "note": "NOT claimed: the handshake-interval timer, release of the connection slot, survival of the owning socket and its other connections, the io_uring handler (async runtime behaviour); PLAIN-phase robustness is exercised by the C06 driver; CURVE/NOISE parsers are outside the default feature set.",
     },
@@ -264,12 +264,17 @@ PROPERTIES["C12"] = {
            "thorough": "topics of length 0..2, messages of length 0..3"},
           params={"quick": {"ops": 3, "topic_len": 2, "msg_len": 2}, "thorough": {"ops": 3, "topic_len": 2, "msg_len": 3}},
           budget={"quick": 600, "thorough": 3300}, required_covers=["c12.match", "c12.no-match"]),
+        M("c12_sub_socket_option_history", "d_c12", "history",
+          {"quick": "the same histories issued as SUBSCRIBE / UNSUBSCRIBE socket options through SubSocket::set_pattern_option (coroutine MIR; the upstream fan-out to peers is a no-op): 3 calls, topics of length 0..1, messages of length 0..2",
+           "thorough": "topics of length 0..2, messages of length 0..2"},
+          params={"quick": {"ops": 3, "topic_len": 1, "msg_len": 2, "via_socket": True}, "thorough": {"ops": 3, "topic_len": 2, "msg_len": 2, "via_socket": True}},
+          budget={"quick": 500, "thorough": 3300}, required_covers=["c12.match", "c12.no-match"]),
     ],
     "assumptions": MIRSYM_TRUST + ["HashMap<u8, Arc<RwLock<TrieNode>>> is modelled as an association list, AtomicUsize as a sequential cell (single-threaded histories)"],
     "manifest": {
         "engine": "mirsym",
         "technique": "symbolic execution of SubscriptionTrie (MIR, z3) against a multiset-of-prefixes reference over all bounded histories",
-        "text": "matches(t) holds iff some subscription with positive reference count is a byte-prefix of t (empty subscription matches everything), a topic subscribed N times stays active until unsubscribed N times, unsubscribing an inactive topic returns false and changes nothing - for every history within the bound, with topic and message bytes symbolic.",
+        "text": "matches(t) holds iff some subscription with positive reference count is a byte-prefix of t (empty subscription matches everything), a topic subscribed N times stays active until unsubscribed N times, unsubscribing an inactive topic returns false and changes nothing - for every history within the bound, with topic and message bytes symbolic; the same holds when the history is issued as SUBSCRIBE / UNSUBSCRIBE options through SubSocket::set_pattern_option (the application's path).",
         "design_ref": "DESIGN.md §5 C12",
         "note": "NOT claimed: delivery order / no duplicates on live sockets, publisher never blocking, concurrent matching while the subscription set changes, the filtered enqueue paths of PipeMessageSender.",
     },
@@ -374,7 +379,7 @@ PROPERTIES["C05"] = {
     "manifest": {
         "engine": "mirsym",
         "technique": "symbolic execution of two real engines wired back to back (MIR, z3) under solver-enumerated delivery schedules; table equivalence by exhaustive symbolic execution of the three verdict paths",
-        "text": "Compatible endpoints always reach Data and agree on peer socket type and identity; unequal PLAIN credentials end in failure without a HandshakeComplete on either side; the verdict for every (local, peer) socket-type pair is identical over ZMTP/3 and ZMTP/2.0 and equals the ZeroMQ pairing table; the inproc table is compared against the same table.",
+        "text": "Compatible endpoints always reach Data and agree on peer socket type and identity; unequal PLAIN credentials - differing in a byte, or one side's user name / password being a proper prefix of the other's - end in failure without a HandshakeComplete on either side; the verdict for every (local, peer) socket-type pair is identical over ZMTP/3 and ZMTP/2.0 and equals the ZeroMQ pairing table; the inproc table is compared against the same table.",
         "design_ref": "DESIGN.md §5 C05",
         "note": "NOT claimed: CURVE/NOISE convergence, connect()/monitor-level outcomes, mechanism mismatch at socket level. The inproc table deviates for six ordered pairs (known finding, pinned by an existing unit test).",
     },
@@ -387,14 +392,15 @@ NOTIFY_TRUST = CFA_TRUST + ["tokio::sync::Notify: notified() registers at creati
 PROPERTIES["C16"] = {
     "cfabmc": [
         dict(name="c16_waitgroup", module="verifkit.cfabmc.wg_check",
-             scenarios={"quick": [dict(workers=1), dict(workers=2)], "thorough": [dict(workers=1), dict(workers=2), dict(workers=3, K=22)]},
+             scenarios={"quick": [dict(workers=1), dict(workers=2), dict(workers=1, waiters=2)],
+                        "thorough": [dict(workers=1), dict(workers=2), dict(workers=3, K=22), dict(workers=1, waiters=2), dict(workers=2, waiters=2)]},
              timeout_ms={"quick": 300000, "thorough": 1800000}, tiers=("quick", "thorough")),
     ],
     "assumptions": NOTIFY_TRUST + ["notify_one stores a single permit that the next awaiting task consumes (tokio's documented behaviour)"],
     "manifest": {
         "engine": "cfabmc",
         "technique": "bounded model checking of interleavings (z3): CFAs of WaitGroup::wait / done and LoadBalancer::wait_for_connection / deactivate extracted from MIR, scheduler as solver variables",
-        "text": "With 1..3 workers calling done() and one task in wait(), over all interleavings of the individual counter / Notify operations: the waiter never remains parked on the Notify while the count is zero, done() never underflows, the re-check loop stays within its bound.",
+        "text": "With 1..3 workers calling done() and one task (also: two tasks, as with two concurrent Context::term() calls) in wait(), over all interleavings of the individual counter / Notify operations: the waiter never remains parked on the Notify while the count is zero, done() never underflows, the re-check loop stays within its bound.",
         "design_ref": "DESIGN.md §5 C16",
         "note": "Only the WaitGroup kernel that Context::term() and socket shutdown wait on. NOT claimed: bounded completion time of close()/term(), errors after close, ports and inproc names being released, no task left running (actors, tokio, OS state).",
     },
@@ -457,7 +463,7 @@ PROPERTIES["C18"] = {
     "manifest": {
         "engine": "mirsym",
         "technique": "symbolic execution of the record layer and of the engine's Data-phase emitters (MIR, z3) with an abstract cipher; round trip through the peer's record layer",
-        "text": "Structural clause only: everything an endpoint emits in the Data phase of an encrypted session - a message of any of the boundary sizes, its PINGs and its PONGs - is either refused with an error at the sender or decoded by the peer's record layer to exactly what was sent (the 16-bit record length is never silently truncated; heartbeats travel inside the record layer).",
+        "text": "Structural clause only: everything an endpoint emits in the Data phase of an encrypted session - a message of any of the boundary sizes (alone, or two in one record through the batch egress paths), its PINGs and its PONGs - is either refused with an error at the sender or decoded by the peer's record layer to exactly what was sent (the 16-bit record length is never silently truncated; heartbeats travel inside the record layer).",
         "design_ref": "DESIGN.md §5 C18",
         "note": "NOT claimed: payloads never appearing in clear, detection of bit flips / truncation / replay / reordering, distinct ciphertexts across sessions - properties of the AEAD and of key derivation (the CURVE data keys derive from the static key pairs only and the nonce counter restarts at 1; recorded as an observation in DESIGN.md, not decided by a check).",
     },
@@ -504,10 +510,33 @@ PROPERTIES["C09"] = {
     "outside": "socket-level futures, internal timeouts, addressed ingress, ROUTER fragmented send, >1 pipe",
 }
 
+PROPERTIES["C14"] = {
+    "mirsym": [
+        M("c14_sca_send_timeouts", "d_c14", "sca_send_timeouts",
+          "ScaConnectionIface::{send_message, send_multipart, send_multipart_owned} (the tokio session's connection interface, coroutine MIR) on a full data pipe of capacity 1; SNDTIMEO in {-1, 0, any positive value up to i32::MAX ms (symbolic)}; tokio::time::timeout replaced by an object recording the duration it was armed with, its expiry at the second poll a free choice; then: room appears / still full / timer elapsed",
+          budget={"quick": 300, "thorough": 400},
+          required_covers=["c14.sca-send.wouldblock", "c14.sca-send.completed-after-wait", "c14.sca-send.still-waiting", "c14.sca-send.timed-out"]),
+        M("c14_ingress_recv_timeouts", "d_c14", "ingress_recv_timeouts",
+          "AnonymousIngressEngine::{recv, recv_multipart} (PULL/SUB receive path, nested ReadyPipeQueue::pop coroutine) on an empty queue; RCVTIMEO in {-1, 0, any positive value (symbolic)}; same timer object; then: a 2-frame message arrives / still empty / timer elapsed, and a message arriving after a refused or timed-out call is read back",
+          budget={"quick": 300, "thorough": 400},
+          required_covers=["c14.ingress-recv.wouldblock", "c14.ingress-recv.completed-after-wait", "c14.ingress-recv.still-waiting", "c14.ingress-recv.timed-out"]),
+    ],
+    "assumptions": MIRSYM_TRUST + [
+        "time is abstracted: the check decides WHICH duration the code arms (z3: equal to the configured option for every positive value; no timer at all for -1 and 0) and how the three outcomes are mapped to results; that tokio's timer fires no earlier than its duration and not unboundedly later is tokio's contract, not checked",
+        "sequential semantics between polls (see C09)"],
+    "manifest": {
+        "engine": "mirsym",
+        "technique": "symbolic execution (mirsym, z3) of the connection interface's and the ingress engine's coroutine MIR with a symbolic timeout option and a recording timer object",
+        "text": "Kernels of the timeout clause. On a full pipe the tokio session's connection interface fails at once with a would-block error for SNDTIMEO=0 (message handed back / not enqueued, no timer), arms a timer of exactly SNDTIMEO for every positive value and fails with Timeout/ResourceLimitReached only when it has elapsed (message not enqueued), arms NO timer for SNDTIMEO=-1 (waits until there is room), and completes with the message enqueued exactly once when room appears. On an empty queue PULL/SUB recv()/recv_multipart() do the same for RCVTIMEO and never lose a message that arrives after a refused or timed-out call.",
+        "design_ref": "DESIGN.md §5 (C14)",
+        "note": "NOT claimed: the high-water-mark bound on buffered messages, the socket-level wrappers (PUSH's tokio timeout around routing, DEALER pending queue, ROUTER send permits), addressed ingress (REQ/REP/ROUTER/DEALER recv), the io_uring connection (same 30 s fallback pattern seen by reading in io_uring_backend/zmtp_handler.rs; not in the default-feature MIR, not decided, not changed), wall-clock accuracy of tokio timers.",
+    },
+    "outside": "HWM bound, socket-level wrappers, addressed ingress, io_uring connection, timer accuracy",
+}
+
 HOOK_COMMITS = ["e6aec85", "b7f56e8", "904f401", "7ede9e5", "6da26bc", "f8dc301"]
 
 NOT_APPLICABLE = {
-    "C14": "SNDTIMEO/RCVTIMEO are wall-clock semantics of tokio timers around channel operations and the buffering bound is an end-to-end quantity across three tasks; there is no function whose symbolic execution states it, and a symbolic timer would verify the stub, not rzmq (DESIGN.md §5 C14)",
     "C15": "LINGER is a multi-actor shutdown protocol over tokio timers, mailboxes and kernel socket buffers; out of reach of solver-based checking of functions (DESIGN.md §5 C15)",
     "C20": "backend equivalence and kernel-object lifecycles (io_uring rings, fds) cannot be encoded; handlers need a live IoUring (DESIGN.md §5 C20)",
 }
